@@ -71,6 +71,7 @@ def _make_pca(npcs_seq, log):
     class FakePCA:
         def __init__(self, ev):
             self.ev = ev
+            log.append(("pca.init", ev))
             self.k = npcs_seq[min(count[0], len(npcs_seq) - 1)]
             count[0] += 1
             self.components_ = [None] * self.k
@@ -84,6 +85,9 @@ def _make_pca(npcs_seq, log):
             return X[:, : self.k] * 1.0
 
     return FakePCA
+
+
+EV = 0.9  # not the default
 
 
 def _data(seed, n, dim):
@@ -113,7 +117,8 @@ def body_run(ctx, w, npcs, metric, scaling, period, seed, N=None, npcs_after=Non
     npcs_seq = [npcs] + ([npcs_after] if npcs_after else [])
     nbuilt = 0
     with rebind(M, StandardScaler=Scaler, PCA=_make_pca(npcs_seq, log), np=shim):
-        d = M.PCACD(window_size=w, divergence_metric=metric, online_scaling=scaling, delta=delta, sample_period=period)
+        d = M.PCACD(window_size=w, ev_threshold=EV, divergence_metric=metric, online_scaling=scaling, delta=delta,
+                    sample_period=period)
         step = min(100, round(period * w))
         ctx.prove(d.step == step and d.ph_threshold == round(0.01 * w) and d.bins == int(np.floor(np.sqrt(w))), "derived-parameters")
         ctx.prove(d._drift_detection_monitor.burn_in == 0 and d._drift_detection_monitor.threshold == round(0.01 * w)
@@ -165,6 +170,9 @@ def body_run(ctx, w, npcs, metric, scaling, period, seed, N=None, npcs_after=Non
                     R, T = np.vstack(ref_raw), np.vstack(test_raw)
                     fits = [e for e in log if e[0] == "pca.fit"]
                     ctx.prove(len(fits) == 1 and np.allclose(fits[0][1], tr(R)), "pca-fitted-on-the-reference-window-only")
+                    inits = [e for e in log if e[0] == "pca.init"]
+                    ctx.prove(len(inits) == 1 and type(inits[0][1]) is float and inits[0][1] == EV,
+                              "components-selected-by-ev_threshold-for-every-reference-window")
                     if scaling:
                         ft = [e for e in log if e[0] == "scaler.fit_transform"]
                         ctx.prove(len(ft) == 1 and np.allclose(ft[0][1], R), "scaler-fitted-on-the-reference-window")
